@@ -314,6 +314,17 @@ def gen_level(rng):
     return math.exp(rng.uniform(math.log(0.0011), math.log(0.499)))
 
 
+def close(a, b, rtol=1e-9, atol=1e-12):
+    """core.close, but a non-finite implementation value is a plain mismatch (never a harness crash)."""
+    if a is None or b is None or b != b or b in (float('inf'), float('-inf')):
+        return False
+    return core.close(a, b, rtol, atol)
+
+
+def finite(xs):
+    return all(isinstance(x, (int, float)) and x == x and abs(x) != float('inf') for x in xs)
+
+
 class FakeConfig:
     poi_name = 'mu'
 
@@ -408,6 +419,8 @@ def check_property(case, res):
         bad.append(('return-shape:' + mode, 'expected limits has %d entries' % len(res['exp'])))
         return bad
     limits = [res['obs']] + res['exp']
+    if not finite(limits) or not finite(res.get('points', [])) or not all(finite(r) for r in res.get('results', [])):
+        return bad + [('limit-not-finite:' + mode, 'upper_limit returned non-finite values: %r' % (limits,))]
     # forwarding of hypotest options and of (poi, data, model)
     kw = dict(case.get('kwargs', {}))
     if mode == 'auto':
@@ -438,12 +451,12 @@ def check_property(case, res):
             if not (min(a, b) - slack <= tf <= max(a, b) + slack):
                 # is it the crossing of the default level? then the level was not forwarded
                 dcell = [j for j in range(1, len(cs)) if cs[j - 1] > DEFAULT_LEVEL >= cs[j]]
-                if level != DEFAULT_LEVEL and dcell and core.close(scan[dcell[0]] + (scan[dcell[0] - 1] - scan[dcell[0]]) * (DEFAULT_LEVEL - cs[dcell[0]]) / (cs[dcell[0] - 1] - cs[dcell[0]]), t, 1e-9):
+                if level != DEFAULT_LEVEL and dcell and close(scan[dcell[0]] + (scan[dcell[0] - 1] - scan[dcell[0]]) * (DEFAULT_LEVEL - cs[dcell[0]]) / (cs[dcell[0] - 1] - cs[dcell[0]]), t, 1e-9):
                     bad.append(('grid-level-not-forwarded', 'grid limit %d = %r is the crossing of level 0.05, requested level %r' % (k, t, case['level'])))
                 else:
                     bad.append(('grid-limit-outside-cell', 'limit %d = %r outside the crossing cell [%r, %r] of curve %d at level %r'
                                 % (k, t, float(a), float(b), k, case['level'])))
-            elif not core.close(texp, t, 1e-9):
+            elif not close(texp, t, 1e-9):
                 bad.append(('grid-limit-not-chord', 'limit %d = %r is not where the chord of the crossing cell meets the level (%r)' % (k, t, float(texp))))
         if 'results' in res:
             if [core.frac(p) for p in res['points']] != scan or len(res['results']) != len(scan) or any(
@@ -543,7 +556,7 @@ def compare_model(case, res, mo):
     if len(mo['limits']) != 6:
         return 'model returns %d limits' % len(mo['limits'])
     for k in range(6):
-        if not core.close(mo['limits'][k], limits[k], 1e-9):
+        if not close(mo['limits'][k], limits[k], 1e-9):
             return 'limit %d: model %.17g, implementation %.17g' % (k, float(mo['limits'][k]), limits[k])
     if 'points' in res and mo['points'] != [core.frac(p) for p in res['points']]:
         return 'reported points differ: model %r..., implementation %r...' % ([float(x) for x in mo['points'][:8]], res['points'][:8])
@@ -674,7 +687,7 @@ def run_real(case):
                 continue
             i = cell[0]
             texp = sc[i] + (sc[i - 1] - sc[i]) * (level - cs[i]) / (cs[i - 1] - cs[i])
-            if not core.close(texp, t, 1e-9):
+            if not close(texp, t, 1e-9):
                 bad.append(('grid-limit-not-chord', 'real model: limit %d = %r, chord crossing of the cell is %r' % (k, t, float(texp))))
     for i in range(4):
         if limits[1 + i] > limits[2 + i] * (1 + 1e-3):
@@ -682,7 +695,7 @@ def run_real(case):
             break
     for p, r in list(zip(pts, rs))[:3]:
         rr = pyhf.infer.hypotest(p, data, model, return_expected_set=True, **case['kwargs'])
-        if not core.close(core.frac(float(rr[0])), float(r[0]), 1e-6):
+        if not close(core.frac(float(rr[0])), float(r[0]), 1e-6):
             bad.append(('results-not-hypotests:' + case['mode'], 'real model: returned result at %r is not hypotest(%r)' % (p, p)))
             break
     return bad, out
@@ -798,19 +811,22 @@ def run(ctx):
         if s:
             sigs.add(s)
         if r['ok']:
-            if c['mode'] == 'auto':
-                b = c['bounds']
-                stats['auto_extended_low'] += bool(r['toms'] and core.frac(r['toms'][0]['a']) != core.frac(b[0]))
-                stats['auto_extended_up'] += bool(r['toms'] and core.frac(r['toms'][0]['b']) != core.frac(b[1]))
-                stats['toms_evaluations'] += sum(len(t['pts']) for t in r['toms'])
-            else:
-                lv = core.frac(c['level'])
-                for cu in c['curves']:
-                    cs = [core.frac(curve_float(tuple(cu), x)) for x in c['scan']]
-                    stats['grid_clamped_curves'] += not any(cs[j - 1] > lv >= cs[j] for j in range(1, len(cs)))
-                    stats['level_on_grid_value'] += lv in cs
-            exprs.append(model_expr(c, r))
-            idx.append(i)
+            try:
+                if c['mode'] == 'auto':
+                    b = c['bounds']
+                    stats['auto_extended_low'] += bool(r['toms'] and core.frac(r['toms'][0]['a']) != core.frac(b[0]))
+                    stats['auto_extended_up'] += bool(r['toms'] and core.frac(r['toms'][0]['b']) != core.frac(b[1]))
+                    stats['toms_evaluations'] += sum(len(t['pts']) for t in r['toms'])
+                else:
+                    lv = core.frac(c['level'])
+                    for cu in c['curves']:
+                        cs = [core.frac(curve_float(tuple(cu), x)) for x in c['scan']]
+                        stats['grid_clamped_curves'] += not any(cs[j - 1] > lv >= cs[j] for j in range(1, len(cs)))
+                        stats['level_on_grid_value'] += lv in cs
+                exprs.append(model_expr(c, r))
+                idx.append(i)
+            except (ValueError, OverflowError):      # non-finite values from the implementation: already reported by check_property
+                stats['non_finite_cases'] = stats.get('non_finite_cases', 0) + 1
     # ---- the model inside Coq on the same inputs
     disagree = []
     try:
